@@ -5,7 +5,7 @@
    `run optst ds tree = ROk (its, t)`: the loop ended, no `#if` is left, no define is unused; `its` is the final
    top-level node list, `t` the final symbol table, `lookup t` the final valuation. *)
 From Coq Require Import ZArith NArith List Bool.
-From CA Require Import Model.Driver Model.Cond Spec.Select Proofs.DriverP Proofs.CondEvalP Proofs.CondLoopP Proofs.CondSelectP.
+From CA Require Import Model.Driver Model.Cond Spec.Select Proofs.DriverP Proofs.CondEvalP Proofs.CondLoopP Proofs.CondSelectP Proofs.CondFixP.
 Import ListNotations.
 Open Scope list_scope.
 
@@ -60,6 +60,17 @@ Theorem C16_unused : forall optst ds tree its t, run optst ds tree = ROk (its, t
   forall n v, In (n, v) ds -> exists en, find_entry (split_on 46%N n) t = Some en /\ e_kind en = KConst.
 Proof. exact run_unused. Qed.
 
+(* the loop does not stop while a constant is still becoming known: its end test compares the number of constants in state
+   Resolved -- INCLUDING those already final (literal constants, -d overrides) -- with the previous round's, so an equal
+   count means no constant changed state; hence a constant still unknown at the end evaluates to Unknown under the FINAL
+   valuation as well (the final valuation is a fixed point), for forward chains of any length.  A count that leaves out
+   the already-final constants (seeded change C16-5) breaks exactly the step `prev <= C t its` of Proofs/CondFixP.round_count. *)
+Theorem C16_loop_complete : forall optst ds tree its t, run optst ds tree = ROk (its, t) ->
+  forall lvl nm e p en, In (ISym lvl nm (SConst e) (Some p)) its -> find_entry p t = Some en ->
+    find_define (join_dot p) ds = None -> e_resolved en = false -> e_value en = VUnknown ->
+    eval (lookup t) e = ROk VUnknown.
+Proof. exact run_complete. Qed.
+
 (* hierarchical names: the override (full name of the declaration) and the unused check (name split at '.') agree *)
 Theorem C16_define_hierarchical : forall p, p <> [] -> (forall x, In x p -> x <> [] /\ ~ In 46%N x) ->
   split_on 46%N (join_dot p) = p.
@@ -113,6 +124,18 @@ Example C16_nonvacuous :
                                          NIf (CBin OEq (CVar 0 [T "a"; T "b"]) (CInt 5)) [NOther 1] (Some [NOther 2])])
     = Some ([1%N], [(T "a", VUnknown); (T "a.b", VInt 5)]) /\
   run true [(T "b", VInt 5)] [NSym 0 (T "a") SLabel; NSym 1 (T "b") (SConst (CInt 2))] = RErr EUnused.
+Proof. vm_compute. repeat split. Qed.
+
+(* a forward chain of constants three links long ending in a literal (or a define) reaches the condition, whatever the
+   setting of the static switch *)
+Definition ex_chain : list node :=
+  [ NSym 0 (T "h0") (SConst (v0 "h1")); NSym 0 (T "h1") (SConst (v0 "h2")); NSym 0 (T "h2") (SConst (CInt 1));
+    NIf (CBin OEq (v0 "h0") (CInt 1)) [NOther 17] (Some [NIf (CBin OEq (v0 "h0") (CInt 2)) [NOther 34] (Some [NOther 51])]) ].
+Example C16_forward_chain :
+  outcome (run true [] ex_chain) = Some ([17%N], [(T "h0", VInt 1); (T "h1", VInt 1); (T "h2", VInt 1)]) /\
+  outcome (run false [] ex_chain) = Some ([17%N], [(T "h0", VInt 1); (T "h1", VInt 1); (T "h2", VInt 1)]) /\
+  outcome (run true [(T "h2", VInt 2)] ex_chain) = Some ([34%N], [(T "h0", VInt 2); (T "h1", VInt 2); (T "h2", VInt 2)]) /\
+  outcome (run true [(T "h2", VInt 7)] ex_chain) = Some ([51%N], [(T "h0", VInt 7); (T "h1", VInt 7); (T "h2", VInt 7)]).
 Proof. vm_compute. repeat split. Qed.
 
 (* the known finding F55 in the model: the nested symbol keeps the parent it had when it was declared *)
